@@ -565,6 +565,9 @@ inductive LkStep : (P2P × TLState) → (P2P × TLState) → Prop
       s.handleEventCore now (.input inp player) handles addr = .ok s' → LkStep (s, t) (s', t)
   | tick (s s' : P2P) (t : TLState) (now : Nat) (reqs' : List Request) :
       s.advanceLockstepFrame now [] = .ok (s', reqs') → LkStep (s, t) (s', execReqs t reqs')
+  /-- the user submits a local player's input for the coming call (`add_local_input`) -/
+  | localInput (s : P2P) (t : TLState) (handle : Nat) (input : Input) :
+      LkStep (s, t) ((s.addLocalInput handle input).1, t)
 
 inductive LkStar : (P2P × TLState) → (P2P × TLState) → Prop
   | refl (x : P2P × TLState) : LkStar x x
@@ -593,6 +596,11 @@ theorem LkInv_step (x y : P2P × TLState) (h : ∃ gh, LkInv x.1 gh x.2) (hs : L
   | tick s s' t now reqs' hadv =>
     obtain ⟨gh', h', _⟩ := lockstepTick_spec s s' gh t now reqs' h hadv
     exact ⟨gh', h'⟩
+  | localInput s t handle input =>
+    obtain ⟨l, hl⟩ := P2P.addLocalInput_pending s handle input
+    show ∃ gh, LkInv (s.addLocalInput handle input).1 gh t
+    rw [hl]
+    exact ⟨gh, SessInv_pending s gh t [] l h.sess, h.idle, h.full, h.rows⟩
 
 /-- **L-lockstep.** -/
 theorem LkInv_run (x y : P2P × TLState) (h : ∃ gh, LkInv x.1 gh x.2) (hr : LkStar x y) : ∃ gh, LkInv y.1 gh y.2 := by
@@ -628,6 +636,9 @@ inductive LWStep {G : Type} (step : G → List (Input × InputStatus) → G) : (
   | tick (s s' : P2P) (x : GS G) (now : Nat) (reqs' : List Request) :
       s.advanceLockstepFrame now [] = .ok (s', reqs') →
       LWStep step (s, x) (s', execGs step s.sync.cells.length x reqs')
+  /-- the user submits a local player's input for the coming call (`add_local_input`) -/
+  | localInput (s : P2P) (x : GS G) (handle : Nat) (input : Input) :
+      LWStep step (s, x) ((s.addLocalInput handle input).1, x)
 
 inductive LWStar {G : Type} (step : G → List (Input × InputStatus) → G) : (P2P × GS G) → (P2P × GS G) → Prop
   | refl (w) : LWStar step w w
@@ -665,6 +676,9 @@ theorem LWInv_step {G : Type} (step : G → List (Input × InputStatus) → G) (
         rw [this]
         simp only [replay]
         rw [replay_upd step g0 x.R _ _ _ (Nat.le_refl _), upd_self, h.state]
+  | localInput s x handle input =>
+    exact ⟨LkInv_step (s, ⟨x.cur, x.R⟩) ((s.addLocalInput handle input).1, ⟨x.cur, x.R⟩) h.sess
+      (LkStep.localInput s _ handle input), h.state⟩
 
 theorem LWInv_run {G : Type} (step : G → List (Input × InputStatus) → G) (g0 : G) (a b : P2P × GS G)
     (h : LWInv step g0 a.1 a.2) (hr : LWStar step a b) : LWInv step g0 b.1 b.2 := by
